@@ -10,7 +10,9 @@ RULE = ("trees of 1-6 files / single files, sizes from boundary classes of block
         "TorrentFileHybrid; plus scaled mode (BLOCK_SIZE=64 patched in the harness process, "
         "hasher classes only) sweeping block counts 1..N; distinct by (pl, sorted per-file "
         "(size%B,size%pl,size//pl)); non-trivial when some file has a block or piece count that "
-        "is not a power of two, or a short last block")
+        "is not a power of two, or a short last block; plus object reuse: each creator object writes, "
+        "the payload changes (files resized / rewritten / added / removed so that the set of files "
+        "longer than one piece changes), the object assembles and writes again - judged on both files")
 KINDS = ("a2", "a3", "v2", "hy")
 
 
@@ -60,6 +62,14 @@ def run_case(run, drv, files, pl, single, tag, kinds=KINDS):
             cr.ask_hashers(drv, blob, pl, (case, rel, got, blob, pl))
     run.case(cr.shape(files, pl), nontrivial(files, pl), sample=case,
              classes=[f"files={len(files)}", f"pl={pl}", "single" if single else "dir"])
+
+
+def run_rewritten(run, before, after, pl, single, tag, again=1):
+    """A creator object wrote a metafile, the payload changed, the object assembled and wrote
+    again: the second metafile follows BEP 52 for the payload as it is now (all four creators)."""
+    case = cr.run_rewritten(run, "c02", before, after, pl, single, tag, KINDS, cr.check_v2_view, again=again)
+    run.case(["rewritten", again] + cr.shape(after, pl) + cr.shape(before, pl), nontrivial(after, pl), sample=case,
+             classes=[f"files={len(after)}", f"pl={pl}", "single" if single else "dir", "object-written-twice"])
 
 
 def settle_model(run, drv, scaled=False):
@@ -164,7 +174,10 @@ def run(tier, seed, replay=None):
     def still_fails(c):
         probe = Run("C02", tier, seed, RULE)
         files = cr.files_of_case(c)
-        run_case(probe, Driver(), files, c["pl"], c["single"], "shrink")
+        if c.get("earlier") is not None:
+            run_rewritten(probe, cr.earlier_of(c), files, c["pl"], c["single"], "shrink", again=c.get("again", 1))
+        else:
+            run_case(probe, Driver(), files, c["pl"], c["single"], "shrink")
         return any(f.kind == "impl-vs-spec" for f in probe.failures)
     run.shrinker = still_fails
     if replay:
@@ -173,15 +186,28 @@ def run(tier, seed, replay=None):
             scaled_sweep(run, drv, "quick")
         else:
             files = cr.files_of_case(c)
-            run_case(run, drv, files, c["pl"], c["single"], "replay")
+            if c.get("earlier") is not None:
+                run_rewritten(run, cr.earlier_of(c), files, c["pl"], c["single"], "replay", again=c.get("again", 1))
+            else:
+                run_case(run, drv, files, c["pl"], c["single"], "replay")
             settle_model(run, drv)
         return run.finish()
     for files, pl, single in cr.corner_cases():
         run_case(run, drv, files, pl, single, "corner")
+    for pl in (16384, 32768):
+        for label, before, after, single in cr.rewritten_shapes(pl):
+            run_rewritten(run, before, after, pl, single, "rewritten:" + label, again=1 if pl == 16384 else 2)
     n = 90 if tier == "quick" else 600
-    for _ in range(n):
+    import random
+    for i in range(n):
         files, pl, single = cr.make_case(run.rng, tier)
         run_case(run, drv, files, pl, single, "random")
+        # (own generator: the stream of the cases above stays what it was)
+        rng2 = random.Random(f"{seed}/rewritten/{i}")
+        if rng2.random() < 0.2:
+            before = cr.other_state(rng2, files, pl, single)
+            if before is not None:
+                run_rewritten(run, before, files, pl, single, "rewritten:random", again=rng2.choice([1, 1, 2]))
     settle_model(run, drv)
     big_piece(run)
     scaled_sweep(run, drv, tier)
